@@ -277,8 +277,27 @@ def run_c10(ctx):
             rp = vlib.save_replay(ctx, key.replace(":", "_").replace("[", "_").replace("]", "").replace(",", "_"),
                                   dict(family="files", property="C10", clause=key, event=e))
             violations.append(dict(key=key, replay=rp, what=json.dumps({k: e.get(k) for k in ("ops", "point", "calls_done", "last_call", "after", "name", "msg")})[:400]))
+    # ---- witness of known finding F-C10-3: a really full disk (2 MB tmpfs filled up and freed again under the real
+    # processor and recorders): files get their final name although they could not be completed
+    full_disk = dict(mounted=False)
+    import fam_proc
+    mnt = fam_proc.mount_small_fs(ctx, "smallfs")
+    if mnt:
+        try:
+            _, fstats = fam_proc.real_sinks(ctx, tier, prop="C10", smallfs=mnt)
+        finally:
+            fam_proc.umount(mnt)
+        full_disk = dict(mounted=True, scripts=fstats["scripts"], undecodable_published=fstats["undecodable_files_published_on_a_full_disk"])
+        if fstats["undecodable_files_published_on_a_full_disk"] > 0:
+            key = "C10:partial-file-named-cptv[disk-full]"
+            rp = vlib.save_replay(ctx, "C10_partial_file_disk_full", dict(family="files", property="C10", clause=key, stats=fstats,
+                                  note="see findings/C10-undecodable-cptv-on-full-disk.json"))
+            violations.append(dict(key=key, replay=rp, what="%d undecodable *.cptv published in %d scripts on a full 2 MB file system"
+                                   % (fstats["undecodable_files_published_on_a_full_disk"], fstats["scripts"])))
+    else:
+        ctx.notes.append("no small file system could be mounted: the full-disk witness of F-C10-3 was not run")
     finals = sum(1 for e in events if e["ev"] == "killrun" for f in e["before"] if f["kind"] == "final")
-    coverage = dict(states=d.get("distinct", 0), transitions=d.get("generated", 0),
+    coverage = dict(full_disk_runs=full_disk, states=d.get("distinct", 0), transitions=d.get("generated", 0),
                     traces_validated_against_impl=len(ops_list) if have_strace else 0,
                     samples=[dict(ops=ops_list[0], sys_events=[e for e in events if e["ev"] == "sys"][:12])],
                     exhaustive=(tier == "thorough"), design=dict(MaxRec=3, CleanKinds=sorted(removed), violation=design_violation),
